@@ -1,4 +1,5 @@
 import SqlVerif.Model.Tok
+import SqlVerif.Model.Escape
 /-!
 Model of data-type printing and parsing (property C18).
 
@@ -10,8 +11,10 @@ Model of data-type printing and parsing (property C18).
   `retok` is that merge (greedy, left to right, exactly `Tokenizer::next_token` on `>`), and
   `printDT = retok ∘ pre`.  TOKEN-LEVEL choice: nothing of the tokenizer model is reused.  Payload
   texts (identifiers, labels, time zones) are printed as the token the lexer gives back for the
-  well-behaved payloads (C06's predicates); raw custom-type modifiers are printed through the
-  parameter `Env.lexMod` (the real tokens of the raw modifier text travel with each request).
+  well-behaved payloads (C06's predicates); custom-type modifiers are stored as SQL text (a word's
+  `Display`, a number's text, a string literal's spelling `sqSpell`) and printed verbatim, i.e.
+  through the parameter `Env.lexMod` (the real tokens of the modifier text travel with each
+  request).
 * `parseHelper` mirrors `Parser::parse_data_type_helper` branch by branch in source order, with
   the recursion guard (`depth`), the `MatchedTrailingBracket` bookkeeping (`Bool` component) and
   the `dialect_of!` tests (`Cfg`, built from the dialect's name); `parseDataType` is
@@ -586,7 +589,13 @@ def bqSplit (c : Cfg) (is : List Ident) : List Ident :=
     is.flatMap fun i => (splitOnDot i.value).map fun v => { value := v, quote := i.quote }
   else is
 
-/-- the loop of `parse_optional_type_modifiers` after the `(` -/
+/-- `Value::SingleQuotedString(s).to_string()`: the SQL spelling of a string literal, quotes
+included, embedded quotes doubled by `escape_single_quote_string` (the printer of `Model/Escape`,
+with its quirks: an already doubled `''` and a quote after a backslash are left alone) -/
+def sqSpell (s : W) : W := SqlVerif.Escape.showValue .singleQuoted s
+
+/-- the loop of `parse_optional_type_modifiers` after the `(`: a word is stored as it prints (quotes
+of a quoted identifier included), a number by its text, a string literal in its SQL spelling -/
 def modLoop : List Tok → Except Err (List W × List Tok)
   | [] => expectedAt "type modifiers" []
   | t :: r =>
@@ -596,7 +605,7 @@ def modLoop : List Tok → Except Err (List W × List Tok)
       | none => .error .unsupported
       | some s => do let (ms, r') ← modLoop r; pure (s :: ms, r')
     | .number n _ => do let (ms, r') ← modLoop r; pure (n :: ms, r')
-    | .sqs s => do let (ms, r') ← modLoop r; pure (s :: ms, r')
+    | .sqs s => do let (ms, r') ← modLoop r; pure (sqSpell s :: ms, r')
     | .sym .Comma => modLoop r
     | .sym .RParen => pure ([], r)
     | _ => expectedAt "type modifiers" (t :: r)
